@@ -27,7 +27,8 @@ from fractions import Fraction
 import numpy as np
 import torch
 
-from common import ROOT, Check, InfraError, ddmin, frac
+import py2lean_segtree
+from common import LEAN_DIR, REPO, ROOT, Check, InfraError, ddmin, frac
 
 FINDING_ID = "C11-retrieve-float-edge"
 EDGE_LEAVES = [0.2054852577007612, 0.11135532569665556, 0.5699993338763802]
@@ -670,6 +671,58 @@ def probe_float_edge(chk: Check) -> None:
                     {"suite": "float-edge", "capacity": 4, "leaves": EDGE_LEAVES, "u": u, "returned": i})
 
 
+# ----------------------------------------------------------------------------- source translation
+TRANSLATION_MSG = "source translation of segment_tree.py no longer matches the model: "
+
+
+def pre_gate(chk: Check) -> None:
+    """Regenerate lean/Gen/SegTreeGen.lean from the source text of the tree under test (before the
+    Lean gate) and re-check the equalities `generated definition = model function`
+    (Proofs/SegTreeGenEq.lean) and the theorems over the generated definitions (Props/C11.lean).
+    A failure is a gate problem; the correspondence and the oracle then look for the failing input."""
+    import hashlib
+    import re
+    import subprocess
+    out = LEAN_DIR / "Gen" / "SegTreeGen.lean"
+    info = {"source": str(REPO / py2lean_segtree.REL_SOURCE)}
+    chk.corr["source_translation"] = info
+    try:
+        text, sha = py2lean_segtree.translate(REPO)
+    except py2lean_segtree.Unsupported as e:
+        info["status"] = "translator-failed"
+        chk.gate["problems"].append(TRANSLATION_MSG + f"the translator rejects the source ({e}); "
+                                    "the equalities of Proofs/SegTreeGenEq.lean (gen_*_eq) are unchecked for this tree")
+        return
+    info["source_sha256"] = sha
+    info["translation_sha256"] = hashlib.sha256(py2lean_segtree.strip_sha(text).encode()).hexdigest()
+    info["rewritten"] = py2lean_segtree.write_if_changed(text, out)
+    b = subprocess.run(["lake", "build", "Gen.SegTreeGen", "Proofs.SegTreeGenEq", "Props.C11"], cwd=LEAN_DIR,
+                       capture_output=True, text=True)
+    if b.returncode == 0:
+        info["status"] = "equal-to-model"
+        return
+    log = b.stdout + b.stderr
+    errs = [ln.strip() for ln in log.splitlines() if re.search(r"\berror\b", ln)]
+    first = errs[0] if errs else log.strip().splitlines()[-1] if log.strip() else "lake build failed"
+    # name the equality / theorem whose proof stopped checking
+    where = None
+    m = re.search(r"(Proofs/SegTreeGenEq|Props/C11|Gen/SegTreeGen)\.lean:(\d+):", first)
+    if m:
+        f = LEAN_DIR / (m.group(1) + ".lean")
+        decl = None
+        for i, ln in enumerate(f.read_text().splitlines(), 1):
+            mm = re.match(r"\s*(?:theorem|def)\s+([\w.']+)", ln)
+            if mm:
+                if i > int(m.group(2)):
+                    break
+                decl = mm.group(1)
+        where = decl
+    info["status"] = "differs-from-model"
+    info["first_error"] = first[:400]
+    info["broken_declaration"] = where
+    chk.gate["problems"].append(TRANSLATION_MSG + (f"{where} does not check any more: " if where else "") + first[:400])
+
+
 # ----------------------------------------------------------------------------- check
 def run(chk: Check) -> None:
     rng = chk.rng
@@ -689,6 +742,12 @@ def run(chk: Check) -> None:
         "this per sample with a Fraction mirror and otherwise compares with relative tolerance 1e-9 (sums) / 1e-6 (weights)",
         "x ** alpha and x ** -beta are Python float pow; the model treats them as a positive resp. positive antitone function",
     ]
+    st = chk.corr.get("source_translation", {})
+    chk.notes.append(f"source translation: {st.get('status', 'not run')}; segment_tree.py sha256={st.get('source_sha256')}; "
+                     f"translation sha256={st.get('translation_sha256')}")
+    chk.trusted_extra.append("harness/py2lean_segtree.py (translator of segment_tree.py; its output is proved equal to the "
+                             "hand-written model, so an error in it can only make the gate fail, unless it mistranslates "
+                             "towards the model)")
     if drive(chk, ["reset", "seg eps"])[1] != frac(1e-5):
         raise InfraError("model constant eps is not the float 1e-5")
     cases = []
